@@ -970,6 +970,9 @@ func (fx *FnExec) doUnOp(st *State, fr *frame, x *ssa.UnOp) {
 			if !isGlobalLV(lv) {
 				st.assumeWF(v, et)
 			}
+		case *types.Basic:
+			// a machine integer read from memory is within its type's range
+			st.assumeWF(v, et)
 		}
 	case token.NOT:
 		st.vals[x] = "(not " + st.val(x.X) + ")"
@@ -1142,14 +1145,15 @@ func (fx *FnExec) doConvert(st *State, fr *frame, x *ssa.Convert) {
 			st.vals[x] = v
 		}
 	case fs == "Slice" && ts == "Str":
-		mem := st.heapGet("Mem.Int", "(Array Int (Array Int Int))")
+		bmn, bms := fx.byteMem()
+		mem := st.heapGet(bmn, bms)
 		st.vals[x] = fmt.Sprintf("(bstr (select %s (sptr %s)) (soff %s) (slen %s))", mem, v, v, v)
 	case fs == "Str" && ts == "Slice":
 		// fresh backing array holding the bytes of the string
 		r := st.freshRef("bytes")
 		arr := fx.freshConst("bytesarr", arrOf("Int"))
 		st.assume(fmt.Sprintf("(forall ((i Int)) (! (=> (and (<= 0 i) (< i (strlen %s))) (= (select %s i) (strat %s i))) :pattern ((select %s i))))", v, arr, v, arr))
-		mn, ms := "Mem.Int", "(Array Int (Array Int Int))"
+		mn, ms := fx.byteMem()
 		st.heapSet(mn, ms, "(store "+st.heapGet(mn, ms)+" "+r+" "+arr+")")
 		// string(b) of the result is the same string: record for precision
 		sl := fmt.Sprintf("(mkslice %s 0 (strlen %s) (strlen %s))", r, v, v)
